@@ -1,4 +1,4 @@
-//@serves C10 C16
+//@serves C01 C04
 //@tier A
 //@include prelude/head.rs
 verus! {
@@ -7,25 +7,28 @@ verus! {
 //@include prelude/fd.rs
 //@include prelude/path.rs
 //@include prelude/error.rs
+//@include prelude/pathspec.rs
+//@include prelude/c15.rs
+//@include prelude/static_fs.rs
+//@include prelude/resolver_static.rs
 //@broadcast-here
+pub type RawMode = u32;
 pub mod syscalls {
     use super::*;
 //@include prelude/syserr_opaque.rs
+//@use syscalls.openat__static
+//@use syscalls.readlinkat__static
 //@use-missing syscalls.openat syscalls.openat_follow syscalls.readlinkat syscalls.mkdirat syscalls.mknodat syscalls.unlinkat syscalls.linkat syscalls.symlinkat syscalls.renameat syscalls.renameat2 syscalls.openat2
 }
 use syscalls::Error as SyscallError;
 //@item src/error.rs :: enum ErrorKind | sub.ErrorKind
-impl ErrorImpl {
-//@prove error.ErrorImpl.kind
-//@prove error.ErrorImpl.is_safety_violation
+//@item src/resolvers.rs :: const MAX_SYMLINK_TRAVERSALS
+//@item src/resolvers.rs :: enum PartialLookup | sub.PartialLookup
+impl RawComponents<'_> {
+//@use utils.path.RawComponents.prepend__static
 }
-impl Error {
-//@prove error.Error.kind
-//@prove error.Error.is_safety_violation
-}
-impl ErrorKind {
-//@prove error.ErrorKind.errno
-//@prove error.ErrorKind.is_safety_violation
-}
+//@use opath.check_current__static
+//@use opath.may_follow_link__static
+//@prove opath.do_resolve__static
 } // verus!
 fn main() {}
